@@ -311,3 +311,69 @@ theorem C05_enter_forced (net : FNet S M) (order : List Nat) (hnd : order.Nodup)
       simp only [hs, hval]
       simp [upd, Store.get]
     · exact ih hnd'.2 _ hvs
+
+/-! ### The `with_feedback` context seen from the sender, and what is left after it -/
+
+/-- entering `with_feedback(forced)`: a node that is not a receiver and is named gets the value as its state proxy
+    (sender-side forcing; duplicate-free order) -/
+theorem C05_enter_forced_sender (net : FNet S M) (order : List Nat) (hnd : order.Nodup)
+    (forced : Nat → Option S) (σ : Store S M) (v : Nat) (hv : v ∈ order)
+    (hs : net.fbSender v = none) (val : S) (hval : forced v = some val) :
+    (enterFeedback net order forced σ v).proxy = some val := by
+  unfold enterFeedback
+  induction order generalizing σ with
+  | nil => simp at hv
+  | cons u us ih =>
+    simp only [List.foldl_cons]
+    have hnd' := (List.nodup_cons.mp hnd)
+    rcases List.mem_cons.mp hv with rfl | hvs
+    · rw [enterFeedback_not_mem net forced us _ v hnd'.1]
+      unfold enterFbStep
+      simp only [hs, hval]
+      simp [upd, Store.get]
+    · exact ih hnd'.2 _ hvs
+
+/-- … and a receiver of that sender (nothing clamped on its own side) then reads exactly the forced value -/
+theorem C05_sender_forced_read (net : FNet S M) (σ : Store S M) (r s : Nat) (val : S)
+    (hr : net.fbSender r = some s) (hc : (σ r).clamp = none) (hp : (σ s).proxy = some val) :
+    fbOf net σ r = some val := by
+  simp [fbOf, hr, hc, NState.stateProxy, hp]
+
+/-- **Leaving the context restores.** Whatever happened inside (`σc` is arbitrary), every non-receiver of the model
+    has the proxy it had before the context, and nothing else is touched -/
+theorem C05_exit_restores (net : FNet S M) (order : List Nat) (σ0 σc : Store S M) (v : Nat) :
+    (v ∈ order → net.fbSender v = none → (exitFeedback net order σ0 σc v).proxy = (σ0 v).proxy)
+    ∧ (exitFeedback net order σ0 σc v).st = (σc v).st
+    ∧ (exitFeedback net order σ0 σc v).mem = (σc v).mem
+    ∧ (exitFeedback net order σ0 σc v).clamp = (σc v).clamp
+    ∧ ((v ∉ order ∨ (net.fbSender v).isSome) → exitFeedback net order σ0 σc v = σc v) := by
+  refine ⟨?_, ?_, ?_, ?_, ?_⟩
+  · intro hv hs
+    simp [exitFeedback, Store.get, hv, hs]
+  · simp only [exitFeedback, Store.get]; split <;> rfl
+  · simp only [exitFeedback, Store.get]; split <;> rfl
+  · simp only [exitFeedback, Store.get]; split <;> rfl
+  · intro h
+    simp only [exitFeedback, Store.get]
+    rw [if_neg]
+    rintro ⟨h1, h2⟩
+    rcases h with h | h
+    · exact h h1
+    · cases hh : net.fbSender v with
+      | none => rw [hh] at h; simp at h
+      | some x => rw [hh] at h2; simp at h2
+
+/-- **After a forced step the loop is free again.** If the sender had no proxy before the context (the normal
+    situation for a hand-stepped loop), then after the context a receiver with nothing clamped reads the sender's
+    CURRENT state — not the value that was forced inside, whatever was done inside -/
+theorem C05_after_context_reads_state (net : FNet S M) (order : List Nat) (σ0 σc : Store S M) (r s : Nat)
+    (hr : net.fbSender r = some s) (hs : s ∈ order) (hss : net.fbSender s = none)
+    (h0 : (σ0 s).proxy = none) (hc : (σc r).clamp = none) :
+    fbOf net (exitFeedback net order σ0 σc) r = some (σc s).st := by
+  have hR := C05_exit_restores net order σ0 σc r
+  have hS := C05_exit_restores net order σ0 σc s
+  simp only [fbOf, hr]
+  rw [hR.2.2.2.1, hc]
+  simp only [NState.stateProxy]
+  rw [hS.1 hs hss, h0, hS.2.1]
+  rfl
